@@ -21,7 +21,7 @@
 From Coq Require Import Lia Permutation.
 From ChitchatModel Require Import Base SMap Ids Bytes Params NodeState Stream DeltaWire Message Cluster
   FD Chitchat World SMap_lemmas NodeState_lemmas Builder_lemmas Agreement Inv DeltaRefine Compute_lemmas
-  Prefix_lemmas NodeInv Codec_lemmas Emit_lemmas Truth NodeTruth Weak Reach Progress.
+  Prefix_lemmas NodeInv Codec_lemmas Emit_lemmas Truth NodeTruth Weak Reach Progress Quiet.
 
 Section C01.
   Variable zc : bytes -> option bytes.
@@ -83,6 +83,32 @@ Section C01.
     - rewrite Hadv. exact Hd.
   Qed.
 
+  (* The same with the "as advertised" premise discharged: an initiator that quarantines nobody
+     (no member scheduled for deletion) and remembers no removed member — i.e. outside the known
+     class KF-2 — ALWAYS makes strict progress in a complete SYN / SYN-ACK exchange with a
+     responder that holds something deliverable for it, whether or not it knew the offered member
+     before.  ([sn_id n <> self_id a]: a peer is never ahead of a node about the node itself —
+     C05_owner_is_most_advanced in every reachable state.) *)
+  Theorem C01_quiet_exchange_progress : forall now now' a b ord ord' b' dgb x evs n rest,
+    node_inv a -> node_inv b -> no_memory a -> scheduled now a = [] ->
+    process_message zc now b (create_syn_message now a) ord = Ok (b', Some (SynAck dgb x), evs) ->
+    let dg := compute_digest (nd_cs a) [] in
+    let b1 := report_heartbeats_in_digest now (update_self_heartbeat b) dg in
+    let sched := scheduled now b1 in
+    let mtu := P_MAX_UDP - (P_RESERVE_SYNACK + digest_len (compute_digest (nd_cs b1) sched)) in
+    arrange ord (stale_nodes (nd_cs b1) dg sched) = Some (n :: rest) ->
+    P_MIN_MTU <= mtu -> room mtu n ->
+    sn_id n <> self_id a ->
+    process_message zc now' a (SynAck dgb x) ord' = Err \/
+    exists a' reply evs' r',
+      process_message zc now' a (SynAck dgb x) ord' = Ok (a', reply, evs') /\
+      nm_get (sn_id n) (cs_nodes (nd_cs a')) = Some r' /\
+      lex_lt_p (match nm_get (sn_id n) (cs_nodes (nd_cs a)) with Some c => (c_gc c, c_max c) | None => (0, 0) end)
+               (monotonic_property r') /\
+      (forall i c, nm_get i (cs_nodes (nd_cs a)) = Some c ->
+                   exists c', nm_get i (cs_nodes (nd_cs a')) = Some c' /\ frontier_le c c').
+  Proof. exact (quiet_exchange_progress zc zc_len). Qed.
+
   (* the per-member agreement behind it: whatever is offered against the receiver's own frontier
      is never refused as inapplicable, and applying it strictly raises the frontier (C14) *)
   Theorem C01_offer_is_applicable : forall now i s r n mv d,
@@ -139,6 +165,7 @@ Proof. vm_compute. split; reflexivity. Qed.
 Print Assumptions C01_deliverable_iff_ahead.
 Print Assumptions C01_first_stale_member_is_offered.
 Print Assumptions C01_exchange_progress.
+Print Assumptions C01_quiet_exchange_progress.
 Print Assumptions C01_offer_is_applicable.
 Print Assumptions C01_frontier_bounded_by_owner.
 Print Assumptions C01_strict_advance_raises_measure.
